@@ -115,7 +115,7 @@ theorem canonUnd_idem (e : Edge) : canonUnd (canonUnd e) = canonUnd e := by
         · omega
         · rfl
     · rename_i h1 h2
-      simp [h1, h2]
+      simp
 
 /-- the copies of an edge, described: a base edge `((x, d + i), (y, i))` (forward) or
 `((x, k), (y, k + e))` (only for a directed-type layer asked about a backward edge) -/
